@@ -509,6 +509,7 @@ def run_path(harness, params, prefix, opts):
     Ctx.cur = ctx
     ld = loader_mod.get_loader()
     ld.reset_for_path()
+    ld.begin_path()
     env = SymEnv(ctx, ld)
     out = {"prefix": list(prefix), "status": "ok", "obligations": [], "children": []}
     exc = None
@@ -546,8 +547,33 @@ def run_path(harness, params, prefix, opts):
     out["decisions"] = sum(1 for d in dec if not d[1])
     out["inconclusive_feasibility"] = len(ctx.inconclusive)
     pc = ctx.pc()
+    # Late feasibility.  Branch pruning over non-linear cones only uses cheap abstractions, so a path may have been followed
+    # although its path condition is unsatisfiable.  One real solver call over the conjuncts that mention only declared
+    # inputs decides that now (unsat of a subset is unsat of the whole); the earliest unsatisfiable prefix is located by
+    # bisection and the children below it are not spawned.  Such a path is reported as infeasible, its obligations are not
+    # counted (they would hold vacuously).
+    if out["status"] in ("ok", "exception", "unsupported") and opts.get("late_feasibility", True) and len(getattr(ctx, "dec_pos", [])) == len(dec):
+        inputs_ = set(env.vars)
+        idx_in = [k for k, c in enumerate(pc) if solve._syms(c) and solve._syms(c) <= inputs_]
+        if idx_in and any(solve.is_nonlinear(pc[k]) for k in idx_in):
+            lf_to = min(opts.get("qtimeout", 30.0), 6.0)
+            r_f, _, _ = solve.check([pc[k] for k in idx_in], timeout=lf_to)
+            if r_f == "unsat":
+                lo, hi = 1, len(idx_in)          # smallest h with pc_in[:h] unsat
+                while lo < hi:
+                    mid = (lo + hi) // 2
+                    r_m, _, _ = solve.check([pc[k] for k in idx_in[:mid]], timeout=lf_to)
+                    if r_m == "unsat":
+                        hi = mid
+                    else:
+                        lo = mid + 1
+                t_bad = idx_in[lo - 1]             # trace index of the conjunct that makes the prefix unsatisfiable
+                n_before = sum(1 for pos in ctx.dec_pos if pos <= t_bad)      # decisions inside the unsatisfiable prefix
+                out["children"] = [ch for ch in out["children"] if len(ch) <= n_before]
+                out["status"] = "infeasible"
+                out["late_infeasible"] = True
+    out["lines"] = ld.new_lines(feasible=out["status"] in ("ok", "exception", "unsupported", "expected-exception"))
     out["functions"] = sorted(ld.entered)
-    out["lines"] = ld.new_lines()
     want_cc = opts.get("crosscheck", True)
     otimeout = opts.get("otimeout", 60.0)
     if out["status"] == "ok":
